@@ -33,29 +33,58 @@ fn unquote(line: &str) -> Option<String> {
     serde_json::from_str::<String>(line.trim()).ok()
 }
 
-pub fn parse(text: &str) -> (Option<Value>, BTreeMap<u64, Vec<Edge>>, u64) {
+/// Streams the TLC output. TLC explores breadth-first, so the source of every edge has been seen (as the id
+/// of an earlier edge) before the edge itself: depth and partition of every node are known on the fly and only
+/// the edges this process needs (its share below PART_DEPTH, everything above) are kept in memory.
+pub fn parse_file(path: &str, part: (u64, u64)) -> (Option<Value>, BTreeMap<u64, Vec<Edge>>, u64) {
+    use std::io::BufRead;
+    let f = std::fs::File::open(path).expect("edges file");
+    let rd = std::io::BufReader::with_capacity(1 << 20, f);
     let mut model = None;
     let mut kids: BTreeMap<u64, Vec<Edge>> = BTreeMap::new();
+    // node id -> (depth of the node, partition: -1 = shared by all processes)
+    let mut info: std::collections::HashMap<u64, (u32, i64)> = std::collections::HashMap::new();
+    info.insert(0, (0, -1));
     let mut n = 0u64;
-    for line in text.lines() {
-        if !line.starts_with("\"EDGE ") && !line.starts_with("\"MODEL ") {
+    for line in rd.lines() {
+        let Ok(line) = line else { continue };
+        if line.starts_with("\"MODEL ") {
+            if let Some(s) = unquote(&line) {
+                model = serde_json::from_str(&s[6..]).ok();
+            }
             continue;
         }
-        let Some(s) = unquote(line) else { continue };
-        if let Some(rest) = s.strip_prefix("MODEL ") {
-            model = serde_json::from_str(rest).ok();
-        } else if let Some(rest) = s.strip_prefix("EDGE ") {
-            let v: Value = match serde_json::from_str(rest) {
-                Ok(v) => v,
-                Err(_) => continue,
-            };
-            n += 1;
-            kids.entry(v["src"].as_u64().unwrap()).or_default().push(Edge {
-                id: v["id"].as_u64().unwrap(),
-                call: v["call"].clone(),
-                digest: v["d"].clone(),
-            });
+        if !line.starts_with("\"EDGE ") {
+            continue;
         }
+        n += 1;
+        // "EDGE {\"src\":N,\"id\":M,...  - read the two numbers without parsing the whole record
+        let num_after = |key: &str| -> Option<u64> {
+            let i = line.find(key)? + key.len();
+            let rest = &line[i..];
+            let end = rest.find(|c: char| !c.is_ascii_digit()).unwrap_or(rest.len());
+            rest[..end].parse().ok()
+        };
+        let (Some(src), Some(id)) = (num_after("\\\"src\\\":"), num_after("\\\"id\\\":")) else { continue };
+        let (sd, sp) = *info.get(&src).unwrap_or(&(0, -1));
+        let depth = sd + 1;
+        let p: i64 = if part.1 <= 1 || (depth as usize) < PART_DEPTH {
+            -1
+        } else if depth as usize == PART_DEPTH {
+            (id % part.1) as i64
+        } else {
+            sp
+        };
+        info.insert(id, (depth, p));
+        if p != -1 && p != part.0 as i64 {
+            continue;
+        }
+        let Some(s) = unquote(&line) else { continue };
+        let v: Value = match serde_json::from_str(&s[5..]) {
+            Ok(v) => v,
+            Err(_) => continue,
+        };
+        kids.entry(src).or_default().push(Edge { id, call: v["call"].clone(), digest: v["d"].clone() });
     }
     (model, kids, n)
 }
@@ -176,17 +205,8 @@ impl<'a> Walker<'a> {
         let Some(edges) = self.kids.get(&node) else { return };
         for e in edges {
             let depth = stack.len();
-            let mut silent = false;
-            if self.part.1 > 1 {
-                if depth < PART_DEPTH {
-                    silent = self.part.0 != 0;
-                } else if depth == PART_DEPTH {
-                    self.part_counter += 1;
-                    if self.part_counter % self.part.1 != self.part.0 {
-                        continue;
-                    }
-                }
-            }
+            // edges above PART_DEPTH are executed by every process (to reach its share) but counted by share 0 only
+            let silent = self.part.1 > 1 && depth < PART_DEPTH && self.part.0 != 0;
             let mut run = stack.last().unwrap().run.clone();
             let mut ecall = e.call.clone();
             if run.digest_kind == "ownership:treasury" {
@@ -267,8 +287,8 @@ pub fn setup_from_model(m: &Value) -> Setup {
 /// Runs the whole tree. Returns the statistics.
 /// MODEL.kind selects preamble and digest: "staking" (MilkyWay.tla), "ownership" (OwnershipMC.tla, run
 /// against the contract named by `target`), "treasury" (TreasuryMC.tla).
-pub fn run_tree(text: &str, sink: &mut Sink, sample_mod: u64, seed: u64, target: &str, part: (u64, u64)) -> Result<Stats, String> {
-    let (model, kids, n) = parse(text);
+pub fn run_tree(path: &str, sink: &mut Sink, sample_mod: u64, seed: u64, target: &str, part: (u64, u64)) -> Result<Stats, String> {
+    let (model, kids, n) = parse_file(path, part);
     let model = model.ok_or("no MODEL line in the TLC output")?;
     let kind = model["kind"].as_str().unwrap_or("staking").to_string();
     let mut run = Run::new(if kind == "staking" { setup_from_model(&model) } else { Setup::default() }, 0);
